@@ -44,7 +44,7 @@ func init() {
 		NotDecided: "the outcome of every crash point; log contents; atomicity of a single run (the per-branch loop is not one store transaction).",
 	}
 	props["C15"] = &propSpec{
-		Rules:      []string{"C15-a", "C13-g", "C10-d", "C15-c", "C15-d"},
+		Rules:      []string{"C15-a", "C13-g", "C10-d", "C15-c", "C15-d", "C15-e"},
 		Decides:    "Decides that no query of the SQL ref store uses LIKE/GLOB/REGEXP/MATCH (prefix listing is literal and case-sensitive for this code base, which opens SQLite without case_sensitive_like); that multi-statement writes run on one *sql.Tx and RunInTx commits only on success and rolls back otherwise; that the reflog's old value comes from a Scan in the same transaction; that rename/copy/delete change ref and log rows together. Does not decide sequence semantics against a map model; the file store is test-only and not analysed. Also decided: namespace prefixes handed to the store by pkg/ref provably end with '/'.",
 		NotDecided: "sequence semantics of the store against a map model; the file store (pkg/ref/fs is imported only by tests and is outside the production call graph).",
 	}
